@@ -162,6 +162,24 @@ def precond_check(ctx):
                     _rec(d, "fixed|success-continues", p.end.startswith("loop"), "a satisfied precondition must move on to the next one", loc)
         else:
             rng = [g for g in gs if g.startswith("variant(next(Range::Range{start: ")]
+            anyf = [g for g in gs if g.lstrip("!").startswith("Iterator::any(Range::Range{start: ")]
+            if not rng and anyf:
+                # the search written as `(lo..len).any(|j| op.matches_iter(self, j).next().is_some())`
+                ma = re.match(r"^(!?)Iterator::any\(Range::Range\{start: (.*), end: (.*)\}, closure ([^\[]*)\[(.*), a1\]\)$", anyf[0])
+                lo = [g for g in gs if g.lstrip("!") == "lt(a2, %s.min_position)" % PC]
+                want_start = ("%s.min_position" % PC) if (lo and not lo[0].startswith("!")) else ("a2" if lo else None)
+                _rec(d, "floating|range-bounds", ma is not None and want_start is not None and ma.group(2) == want_start and ma.group(3) == "len(a1.search)" and ma.group(5) == PC, "the search for a floating precondition must range over max(start, min_position)..len; found %s" % anyf[0][:160], loc)
+                cb = ctx.body("re_matcher::ReMatcher::check_preconditions::{closure#0}")
+                crs = set()
+                if cb is not None:
+                    for q in ctx.walk(cb).paths:
+                        qg, qr = summarize(q)
+                        crs.add(_sh(strip_ver(qr)))
+                probe = "isSome(next(matches_iter(a1.0.operation, a1.1, a2)))"
+                _rec(d, "floating|probe-each-position", crs and crs <= {probe, "false"} and probe in crs, "each position of the range must be probed with the precondition's operation; the predicate returns %s" % sorted(crs), loc)
+                if ma and ma.group(1) == "!":
+                    _rec(d, "floating|not-found-false", p.end == "return" and r == "false", "a floating precondition found nowhere must answer false", loc)
+                continue
             if not rng:
                 _rec(d, "floating|range", False, "a floating precondition must be searched over a range of positions", loc)
                 continue
